@@ -20,7 +20,8 @@ func init() {
 		Explanation: "Static concurrency-skeleton analysis (engine K) of both Mine functions and everything their goroutines call: every variable shared with a goroutine is accessed only through sync/atomic, is a channel / WaitGroup used only through its operations, or is written only before the `go` that shares it; no function reachable from a worker writes package-level state; " +
 			"the results channel's capacity term equals the bound of the loop that spawns the senders and each sender sends at most once; wg.Add precedes each spawn, Done is deferred first, Wait precedes close/receive/return; close(closing) lies on every path from the watcher's spawn to a return; " +
 			"the watcher blocks only in one select on ctx.Done() and closing and stores the flag atomically; every unbounded cycle of the worker polls the flag atomically with the loop exit depending on it; ErrCancelled is returned exactly on a receive from the closed empty channel. " +
-			"This is sufficient for race freedom of these functions under the Go memory model and for no-blocked-send / no-leak; wall-clock bounds and scheduler fairness are not static notions.",
+			"This is sufficient for race freedom of these functions under the Go memory model and for no-blocked-send / no-leak; wall-clock bounds and scheduler fairness are not static notions. " +
+			"The clause that a returned nonce meets the target is the statement of C11 (v1) and C12 (v2); their obligations are decided here as well (C13.meets-target.*).",
 		Run: runC13,
 	})
 }
